@@ -1716,9 +1716,7 @@ class Stream(AbstractStream):
             phases = other.phases
             if len(phases) == 1:
                 phase, = phases
-                self.phase = phase
-                self.mol.copy_like(other.imol[phase])
-                return
+                imol = other._imol.get_phase(phase)
             else:
                 self.empty() # Contents are replaced; they need not fit the new phases
                 self.phases = other.phases
